@@ -75,14 +75,42 @@ fn build(cfg: &Cfg) -> Result<String, String> {
     Ok(format!("{target}/release/dv-eval"))
 }
 
-fn run_eval(bin: &str, file: &str) -> Result<Vec<String>, String> {
-    let out = Command::new(bin).arg(file).output().map_err(|e| format!("{bin}: {e}"))?;
-    if !out.status.success() {
-        return Err(format!("{bin} ended with {:?}: {}", out.status.code(), truncate(&String::from_utf8_lossy(&out.stderr), 300)));
+/// Runs one evaluator over a case file under a watchdog. Returns the answers received (index 0 =
+/// CONFIG line) and whether the run had to be killed.
+fn run_eval_limited(bin: &str, file: &str, limit_s: u64) -> Result<(Vec<String>, bool), String> {
+    let out_path = format!("{file}.{}.out", hash_str(bin));
+    let out_file = std::fs::File::create(&out_path).map_err(|e| e.to_string())?;
+    let mut child = Command::new(bin).arg(file).stdout(out_file).stderr(std::process::Stdio::null()).spawn().map_err(|e| format!("{bin}: {e}"))?;
+    let t0 = std::time::Instant::now();
+    let mut killed = false;
+    loop {
+        match child.try_wait() {
+            Ok(Some(st)) => {
+                if !st.success() && !killed {
+                    // an abort (e.g. allocation failure) in the middle of the file: treat like a hang at that case
+                    killed = true;
+                }
+                break;
+            }
+            Ok(None) => {
+                if t0.elapsed().as_secs() > limit_s {
+                    let _ = child.kill();
+                    killed = true;
+                    let _ = child.wait();
+                    break;
+                }
+                std::thread::sleep(std::time::Duration::from_millis(20));
+            }
+            Err(e) => return Err(format!("{bin}: {e}")),
+        }
     }
-    let text = String::from_utf8_lossy(&out.stdout);
+    let text = std::fs::read_to_string(&out_path).unwrap_or_default();
+    let _ = std::fs::remove_file(&out_path);
     let mut v = Vec::new();
-    for (k, l) in text.lines().enumerate() {
+    let complete = text.ends_with('\n');
+    let lines: Vec<&str> = text.lines().collect();
+    let n = if complete { lines.len() } else { lines.len().saturating_sub(1) };
+    for (k, l) in lines.iter().take(n).enumerate() {
         if k == 0 {
             if !l.starts_with("CONFIG") {
                 return Err(format!("{bin}: missing CONFIG line"));
@@ -90,10 +118,60 @@ fn run_eval(bin: &str, file: &str) -> Result<Vec<String>, String> {
             v.push(l.to_string());
             continue;
         }
-        // "<index> <result>"
         v.push(l.splitn(2, ' ').nth(1).unwrap_or("").to_string());
     }
-    Ok(v)
+    Ok((v, killed))
+}
+
+/// All answers of one build for a case list. A case on which the evaluator does not come back
+/// (killed by the watchdog, or died) is re-run alone with its own limit; if it still does not
+/// answer its answer is recorded as "NO-ANSWER(hang or abort)" — which then differs from the other
+/// builds — and evaluation continues behind it.
+fn run_eval(bin: &str, lines: &[String], tag: &str) -> Result<Vec<String>, String> {
+    let mut answers: Vec<String> = Vec::with_capacity(lines.len() + 1);
+    let mut config = String::new();
+    let mut start = 0usize;
+    let mut stuck = 0;
+    while start < lines.len() {
+        let file = format!("{}/cases-{tag}-{:x}-{start}.txt", work_dir(), hash_str(bin));
+        std::fs::write(&file, lines[start..].iter().map(|l| format!("{l}\n")).collect::<String>()).map_err(|e| e.to_string())?;
+        let (v, killed) = run_eval_limited(bin, &file, if lines.len() <= 4 { 20 } else { 90 })?;
+        let _ = std::fs::remove_file(&file);
+        if v.is_empty() {
+            return Err(format!("{bin} produced no output"));
+        }
+        config = v[0].clone();
+        answers.extend(v[1..].iter().cloned());
+        let done = start + v.len() - 1;
+        if done >= lines.len() {
+            break;
+        }
+        if !killed {
+            return Err(format!("{bin} stopped after {} of {} cases", done, lines.len()));
+        }
+        // case `done` did not come back: confirm alone
+        let single = format!("{}/cases-{tag}-{:x}-single.txt", work_dir(), hash_str(bin));
+        std::fs::write(&single, format!("{}\n", lines[done])).map_err(|e| e.to_string())?;
+        let (v1, killed1) = run_eval_limited(bin, &single, 20)?;
+        let _ = std::fs::remove_file(&single);
+        if v1.len() >= 2 && !killed1 {
+            answers.push(v1[1].clone());
+        } else {
+            answers.push("NO-ANSWER(hang or abort)".to_string());
+            stuck += 1;
+            if stuck >= 3 {
+                // give up on the rest of the file: mark unanswered
+                while answers.len() < lines.len() {
+                    answers.push("NOT-RUN".to_string());
+                }
+                break;
+            }
+        }
+        start = done + 1;
+    }
+    let mut out = vec![config];
+    out.extend(answers);
+    Ok(out)
 }
 
 // ------------------------------------------------------------------------------------------
@@ -578,6 +656,9 @@ fn judge(c: &EvalCase, outs: &[(String, String)]) -> Result<(), String> {
             Ok(())
         }
         _ => {
+            if outs.iter().any(|(_, o)| o == "NOT-RUN") {
+                return Ok(());
+            }
             for (cfg, o) in outs.iter().skip(1) {
                 // representation info differs legitimately between word sizes: compare without it
                 let strip = |s: &str| -> String { s.split_whitespace().filter(|t| !t.starts_with("cap=")).collect::<Vec<_>>().join(" ") };
@@ -680,12 +761,10 @@ fn known_class(c: &EvalCase, outs: &[(String, String)]) -> Option<&'static str> 
 }
 
 fn run_batch(bins: &[(String, String)], cases: &[EvalCase], tag: &str) -> Result<Vec<Vec<String>>, String> {
-    let file = format!("{}/cases-{tag}.txt", work_dir());
-    let text: String = cases.iter().map(|c| format!("{}\n", c.line)).collect();
-    std::fs::write(&file, text).map_err(|e| e.to_string())?;
+    let lines: Vec<String> = cases.iter().map(|c| c.line.clone()).collect();
     let mut all = Vec::new();
     let results: Vec<Result<Vec<String>, String>> = std::thread::scope(|sc| {
-        let hs: Vec<_> = bins.iter().map(|(_, b)| sc.spawn(|| run_eval(b, &file))).collect();
+        let hs: Vec<_> = bins.iter().map(|(_, b)| sc.spawn(|| run_eval(b, &lines, tag))).collect();
         hs.into_iter().map(|h| h.join().unwrap()).collect()
     });
     for r in results {
